@@ -138,3 +138,21 @@ func VerifC18_ClientAddr() {
 		}
 	}
 }
+
+// VerifC18_ClientAddrReal: the sanitiser against its definition, with the real net.ParseIP and
+// the real address formatting executed symbolically on short strings: the result is the
+// parsed, specified address rendered with port 1 and no zone - or empty.
+func VerifC18_ClientAddrReal() {
+	s := verifapi.String("client_ip", verifapi.Param("iplen", 4))
+	_ = verifapi.Concrete(len(s))
+	got := clientAddr(s)
+	want := ""
+	if ip := net.ParseIP(s); ip != nil && !ip.IsUnspecified() {
+		verifapi.Cover("real parser: a valid specified address")
+		want = (&net.TCPAddr{IP: ip, Port: 1}).String()
+	} else {
+		verifapi.Cover("real parser: rejected")
+	}
+	verifapi.Assert(got.String() == want, "the address told to the bridge is the sanitised client_ip: a valid, specified IP with a stub port, or empty")
+	verifapi.Assert(got.Network() == "snowflake", "network name")
+}
